@@ -287,3 +287,57 @@ VARIANTS += [
     S("C08", "reset-after-build", FLOW, "        self.model.reset_cache()\n        self.build_function_string()\n        self.generate_function()", "        self.build_function_string()\n        self.model.reset_cache()\n        self.generate_function()"),
     S("C08", "iterate-over-a-copy", MODEL, "        for equation in self.memo:\n            self.memo[equation] = {}", "        for equation in list(self.memo):\n            self.memo[equation] = {}"),
 ]
+
+# ---------------------------------------------------------------------------- C09
+ADP = "BPTK_Py/externalstateadapter/externalStateAdapter.py"
+CMP = "BPTK_Py/util/statecompression.py"
+VARIANTS += [
+    F("C09", "session-stop-constant", BPTK, '            "stoptime": stoptime_,', '            "stoptime": 100,', "DERIVE/begin_session/stoptime"),
+    F("C09", "session-dt-parameter-only", BPTK, '            "dt": dt_ if dt_ is not None else 1.0,', '            "dt": dt if dt is not None else 1.0,', "DERIVE/begin_session/dt"),
+    F("C09", "step-simulates-next-point-too", RUN, "start(output=[\"frame\"], start=step, until=step,equations=equations)", "start(output=[\"frame\"], start=step, until=step+sc.dt,equations=equations)", "STEP/run_scenario_step/range"),
+    F("C09", "json-shifted", RUN, '["equations"][equation]= df[equation].to_dict()', '["equations"][equation]= df[equation].shift(1).to_dict()', "SERIES/__generate_df"),
+    F("C09", "log-after-advance", BPTK, '        # log settings and results\n        self.session_state["settings_log"][step] = settings\n        self.session_state["results_log"][step] = simulation_results\n\n        # move session step forward, staying on the decimal grid (a bare step+dt drifts: 0.30000000000000004, 0.7999999999999999)\n        starttime = self.session_state["starttime"]\n        self.session_state["step"]=normalize(step+dt, base=dt, offset=starttime, precision=max(scale(starttime), scale(dt)))\n',
+      '        starttime = self.session_state["starttime"]\n        self.session_state["step"]=normalize(step+dt, base=dt, offset=starttime, precision=max(scale(starttime), scale(dt)))\n        self.session_state["settings_log"][step] = settings\n        self.session_state["results_log"][step] = simulation_results\n', "STEP/run_step/order"),
+    F("C09", "new-simulation-every-step", RUN, "            if sc.sd_simulation is None:\n                # need to set up the sd simulation", "            if True:\n                # need to set up the sd simulation", "STEP/run_scenario_step/keep-simulation"),
+    F("C09", "settings-applied-after-start", RUN, "            sc.result = sc.sd_simulation.start(output=[\"frame\"], start=step, until=step,equations=equations)\n", "            sc.result = sc.sd_simulation.start(output=[\"frame\"], start=step, until=step,equations=equations)\n            sc.sd_simulation.change_runspecs(starttime=sc.starttime,stoptime=sc.stoptime,dt=sc.dt)\n", "STEP/run_scenario_step/apply-before-start"),
+    F("C09", "handler-rescales-result", SRV, "        if result is not None:\n            resp = make_response(jsonpickle.dumps(result), 200)\n        else:\n            resp = make_response('{\"error\": \"no data was returned from run_step\"}', 500)\n\n        if self._external_state_adapter != None:\n            self._external_state_adapter.save_instance(self._instance_manager._get_instance_state(instance_uuid))\n\n        resp.headers['Content-Type'] = 'application/json'\n        resp.headers['Access-Control-Allow-Origin']='*'\n        return resp\n\n    @token_required\n    def _run_steps_resource",
+      "        if result is not None:\n            result = {k: result[k] for k in sorted(result)[:1]}\n            resp = make_response(jsonpickle.dumps(result), 200)\n        else:\n            resp = make_response('{\"error\": \"no data was returned from run_step\"}', 500)\n\n        if self._external_state_adapter != None:\n            self._external_state_adapter.save_instance(self._instance_manager._get_instance_state(instance_uuid))\n\n        resp.headers['Content-Type'] = 'application/json'\n        resp.headers['Access-Control-Allow-Origin']='*'\n        return resp\n\n    @token_required\n    def _run_steps_resource", "PASSTHROUGH/BptkServer._run_step_resource"),
+    F("C09", "stop-time-not-served", BPTK, "        if step>stoptime:\n            return {\"msg\":\"Stoptime reached\"}", "        if step>=stoptime:\n            return {\"msg\":\"Stoptime reached\"}", "STEP/run_step/stop-test"),
+    F("C09", "reads-unwritten-session-key", BPTK, '        return float(self.session_state["step"]) / float(self.session_state["stoptime"])', '        return float(self.session_state["step"]) / float(self.session_state["endtime"])', "KEYS/bptk.progress/endtime"),
+    S("C09", "session-dict-reordered", BPTK, '            "step": starttime_,\n            "starttime": starttime_,', '            "starttime": starttime_,\n            "step": starttime_,'),
+]
+
+# ---------------------------------------------------------------------------- C16
+VARIANTS += [
+    F("C16", "instances-class-attribute", SRV, "class InstanceManager:\n    \"\"\"\n    The class is used to manipulate instances for storing cloned instances, and checking for the session timeout.\n    \"\"\"\n", "class InstanceManager:\n    \"\"\"\n    The class is used to manipulate instances for storing cloned instances, and checking for the session timeout.\n    \"\"\"\n    _cache = {}\n", "STATICS/InstanceManager._cache"),
+    F("C16", "reconstruct-reuses-shared-bptk", SRV, "    def reconstruct_instance(self,instance_uuid,timeout,time,session_state):\n        instance = self._make_bptk()", "    def reconstruct_instance(self,instance_uuid,timeout,time,session_state):\n        instance = self._shared", "FACTORY/InstanceManager.reconstruct_instance/record"),
+    F("C16", "factory-product-cached", SRV, "    def _make_bptk(self):\n        return self._bptk_factory()", "    def _make_bptk(self):\n        if not hasattr(self, '_one'):\n            self._one = self._bptk_factory()\n        return self._one", "FACTORY/"),
+    F("C16", "session-state-class-level", BPTK, "class bptk():\n", "class bptk():\n    session_defaults = {}\n", "STATICS/bptk.session_defaults"),
+    F("C16", "handler-uses-shared-bptk", SRV, "        instance = self._instance_manager.get_instance(instance_uuid)\n        instance.end_session()", "        instance = self._bptk\n        instance.end_session()", "NOSHARED/BptkServer._end_session_resource"),
+    F("C16", "stop-clears-all", SRV, "        if instance_id in self._instances:\n            del self._instances[instance_id]", "        if instance_id in self._instances:\n            self._instances.clear()", "OWNID/"),
+    F("C16", "handler-writes-config", SRV, "        instance = self._instance_manager.get_instance(instance_uuid)\n        instance.end_session()", "        instance = self._instance_manager.get_instance(instance_uuid)\n        instance.config.configuration[\"interactive\"] = False\n        instance.end_session()", None, error_ok=True),
+    S("C16", "factory-via-local", SRV, "        instance_data = {\n            \"instance\": self._make_bptk(),\n            \"time\": datetime.datetime.now(),\n            \"timeout\": timeout\n        }\n        instance_uuid = uuid.uuid1().hex", "        new_instance = self._make_bptk()\n        instance_data = {\n            \"instance\": new_instance,\n            \"time\": datetime.datetime.now(),\n            \"timeout\": timeout\n        }\n        instance_uuid = uuid.uuid1().hex"),
+]
+VARIANTS = [v for v in VARIANTS if v["name"] != "handler-writes-config"]
+
+# ---------------------------------------------------------------------------- C19
+VARIANTS += [
+    F("C19", "load-reads-unwritten-key", ADP, 'timeout = instance_data["data"]["timeout"]', 'timeout = instance_data["data"]["timeout_"]', "RECORD/FileAdapter"),
+    F("C19", "save-drops-step", ADP, '                "timeout": state.timeout,\n                "step": state.step\n', '                "timeout": state.timeout\n', "RECORD/FileAdapter"),
+    F("C19", "state-copies-results-only", SRV, "session_state = copy.deepcopy(instance['instance'].session_state)", "session_state = copy.deepcopy({\"results_log\": instance['instance'].session_state[\"results_log\"]})", "WHOLE/_get_instance_state/copy"),
+    F("C19", "results-compressed-with-settings-function", ADP, '                state.state["results_log"] = statecompression.compress_results(state.state["results_log"])\n        return self._save_instance(state)', '                state.state["results_log"] = statecompression.compress_settings(state.state["results_log"])\n        return self._save_instance(state)', "WIRING/ExternalStateAdapter.save_instance/results_log"),
+    F("C19", "load-forgets-decompress-settings", ADP, '            state.state["settings_log"] = statecompression.decompress_settings(state.state["settings_log"])\n            state.state["results_log"] = statecompression.decompress_results(state.state["results_log"])\n        return state\n\n\n    @abstractmethod', '            state.state["results_log"] = statecompression.decompress_results(state.state["results_log"])\n        return state\n\n\n    @abstractmethod', "WIRING/ExternalStateAdapter.load_instance/both-logs"),
+    F("C19", "none-settings-unguarded", CMP, "        if settings[step] is None:\n            continue\n", "", "NULL/compress_settings"),
+    F("C19", "delete-uses-other-path", ADP, 'os.remove(os.path.join(self.path, str(instance_uuid) + ".json"))', 'os.remove(os.path.join(self.path, str(instance_uuid) + ".state"))', "RECORD/FileAdapter/path"),
+    F("C19", "instance-state-fields-swapped", SRV, 'return InstanceState(session_state, instance_uuid, instance["time"], instance["timeout"], session_state["step"])', 'return InstanceState(session_state, instance_uuid, instance["timeout"], instance["time"], session_state["step"])', "WIRING/InstanceManager._get_instance_state/InstanceState"),
+    F("C19", "set-state-filters", BPTK, "        self.session_state = state\n", "        state.pop(\"settings_log\", None)\n        self.session_state = state\n", "WHOLE/_set_state/filter"),
+    S("C19", "with-open", ADP, '        f = open(os.path.join(self.path, str(state.instance_id) + ".json"), "w")\n        f.write(jsonpickle.dumps(data))\n        f.close()', '        with open(os.path.join(self.path, str(state.instance_id) + ".json"), "w") as f:\n            f.write(jsonpickle.dumps(data))'),
+]
+
+# ---------------------------------------------------------------------------- C20
+VARIANTS += [
+    F("C20", "load-state-appends-none-again", ADP, "            if instance is not None:\n                instances.append(instance)", "            instances.append(instance)", "NULL/BptkServer"),
+    F("C20", "swallow-all-exceptions", SDSIM, "            except KeyError:\n                log(\"[WARN] Unable to simulate equation", "            except Exception:\n                log(\"[WARN] Unable to simulate equation", None, error_ok=True),
+    F("C20", "lazy-restore-unchecked", SRV, "        instance = self._external_state_adapter.load_instance(instance_uuid)\n        if instance == None:\n            return False\n", "        instance = self._external_state_adapter.load_instance(instance_uuid)\n", "NULL/_ensure_instance_exists"),
+    S("C20", "filter-as-comprehension", ADP, "        for instance_uuid in instance_paths:\n            instance = self._load_instance(instance_uuid.split(\".\")[0])\n            # a file that cannot be read (e.g. truncated by a crash) costs that one instance only\n            if instance is not None:\n                instances.append(instance)\n", "        loaded = [self._load_instance(p.split(\".\")[0]) for p in instance_paths]\n        instances = [i for i in loaded if i is not None]\n"),
+]
